@@ -59,5 +59,12 @@ package cmds
 //@ func RunBuild$1() ()
 //@   captured_requires [lock_is_held] locker != nil && locker.lockFilePath == lockPath && has(alive, me) && has(fsIsFile, lockPath) && lockCreator == me
 
+// C05: "a failing target yields a non-zero exit status": RunBuild returns normally (the command exits 0) only if the
+// executor reported no error and the completion map lists no failed target; every explicit exit is with a non-zero status.
 //@ func RunBuild(ctx, logger, targetPatterns, graph, isTest, streamLogs, loadOutputsMode) ()
 //@   requires [graph] graph != nil && graphWF(graph)
+//@   ensures [normal_return_means_clean_build] executionErr == nil && len(executionErrors) == 0
+//@   before_call Exit#1 [nonzero_status] arg1 != 0
+//@   before_call Exit#2 [nonzero_status] arg1 != 0
+//@   before_call Exit#3 [nonzero_status] arg1 != 0
+//@   before_call Exit#4 [nonzero_status] arg1 != 0
